@@ -99,8 +99,9 @@ def check(chk):
         raise AnalysisError('NetworkTopologyStrategy.make_token_replica_map: token loop / datacenter loop not recognised (%d)' % nloops)
     ss = meta.func('SimpleStrategy.make_token_replica_map')
     s = src(ss)
-    chk.judge('len(hosts) < self.replication_factor and j < len(ring)' in s and 'ring[(i + j) % len(ring)]' in s, 'C26.bound', ss,
-              'SimpleStrategy: walk clockwise with wrap-around until RF distinct hosts or the whole ring was seen', 'SimpleStrategy walk/bound changed')
+    okss, whyss = _simple_walk(ss)
+    chk.judge(okss, 'C26.bound', ss,
+              'SimpleStrategy: walk clockwise with wrap-around until RF distinct hosts or the whole ring was seen', 'SimpleStrategy walk/bound changed: %s' % whyss)
     nts = meta.func('NetworkTopologyStrategy.make_token_replica_map')
     s = src(nts)
     chk.judge('replicas_remaining == 0 or replicas_this_dc == hosts_this_dc' in s and 'if full_replicas > 0' in s, 'C26.bound', nts,
@@ -188,3 +189,53 @@ def check(chk):
     good = len(calls) == 1 and len(calls[0].args) == 2 and src(calls[0].args[0]) == 'keyspace' and isinstance(calls[0].args[1], ast.Call) \
         and src(calls[0].args[1].func).endswith('token_class.from_key') and [src(a) for a in calls[0].args[1].args] == ['key']
     chk.judge(good, 'C26.lookup', mg, 'key hashed with the cluster partitioner\'s token class, looked up in the token map', 'key -> token step changed')
+
+
+def _simple_walk(ss):
+    """SimpleStrategy.make_token_replica_map: hosts are taken from ring[(start + step) % len(ring)], a host is added only while fewer than
+    replication_factor are placed, and the inner walk makes at most len(ring) steps - in whatever loop syntax"""
+    from .. import sem
+    from ..core import enclosing
+    g, fl = sem.flow_of(ss)
+
+    def res(e):
+        return src(sem.resolve(ss, e, loops=True))
+    apps = [n for n in g.stmt_nodes() if n.kind == 'stmt' and isinstance(n.ast, ast.Expr) and isinstance(n.ast.value, ast.Call) and isinstance(n.ast.value.func, ast.Attribute)
+            and n.ast.value.func.attr == 'append' and isinstance(n.ast.value.func.value, ast.Name)]
+    if len(apps) != 1:
+        return False, '%d append sites' % len(apps)
+    L = apps[0].ast.value.func.value.id
+    subs = [x for x in ast.walk(ss) if isinstance(x, ast.Subscript) and src(x.value) == 'ring' and isinstance(x.slice, ast.BinOp) and isinstance(x.slice.op, ast.Mod)]
+    subs = [x for x in subs if res(x.slice.right) == 'len(ring)' and isinstance(x.slice.left, ast.BinOp) and isinstance(x.slice.left.op, ast.Add)
+            and isinstance(x.slice.left.left, ast.Name) and isinstance(x.slice.left.right, ast.Name)]
+    if len(subs) != 1:
+        return False, 'no ring[(start + step) % len(ring)] lookup'
+    idx_names = set([subs[0].slice.left.left.id, subs[0].slice.left.right.id])
+    # fewer than RF placed where a host is added
+    for fa, _c in fl.at(apps[0]):
+        okf = False
+        for k, p_ in fa.items:
+            if p_ and k.startswith('len(%s) < ' % L):
+                y = k[len('len(%s) < ' % L):]
+                try:
+                    ye = ast.parse(y, mode='eval').body
+                except SyntaxError:
+                    continue
+                if res(ye) == 'self.replication_factor':
+                    okf = True
+        if not okf:
+            return False, 'a host is appended on a path that has not tested len(%s) < self.replication_factor' % L
+    lp = enclosing(apps[0].ast, (ast.While, ast.For))
+    if isinstance(lp, ast.While):
+        atoms = lp.test.values if isinstance(lp.test, ast.BoolOp) and isinstance(lp.test.op, ast.And) else [lp.test]
+        steps = [a for a in atoms if isinstance(a, ast.Compare) and len(a.ops) == 1 and isinstance(a.ops[0], ast.Lt) and isinstance(a.left, ast.Name) and a.left.id in idx_names
+                 and res(a.comparators[0]) == 'len(ring)']
+        incs = [x for x in lp.body if isinstance(x, ast.AugAssign) and isinstance(x.op, ast.Add) and src(x.value) == '1' and steps and src(x.target) == steps[0].left.id]
+        if not (steps and incs):
+            return False, 'the inner walk is not bounded by len(ring) steps'
+    elif isinstance(lp, ast.For):
+        if not (isinstance(lp.target, ast.Name) and lp.target.id in idx_names and res(lp.iter) == 'range(len(ring))'):
+            return False, 'the inner walk is not `for step in range(len(ring))`'
+    else:
+        return False, 'inner loop not found'
+    return True, ''
